@@ -4,8 +4,8 @@ META = dict(
     explanation="Filter callback only: the function literal readFiles hands to fastwalk is lifted verbatim from the current source and called on symbolic "
                 "paths (L<=5 over {., /, a, b}) for files and directories under every combination of file/dir/hidden and a skip list: pruning, "
                 "listing, trailing separator and ./-trimming must be as documented.",
-    functions=["readFiles: walker callback (lifted)", "fzf.trimPath", "path/filepath.Base (real code)", "strings.HasSuffix"],
-    outside=["fastwalk itself (each entry once, traversal order, symlink following)", "the file system", "symlinked directories (isSymlinkToDir calls os.Stat)", "derivation of the three skip lists in readFiles' prologue"],
+    functions=["readFiles: walker callback (lifted)", "fzf.(*Reader).readFiles (whole, with fastwalk.Walk modelled over a tree description)", "fzf.trimPath", "path/filepath.Base (real code)", "strings.HasSuffix"],
+    outside=["fastwalk itself (each entry once, traversal order, symlink following)", "the file system", "symlinked directories (isSymlinkToDir calls os.Stat)", "trees other than the small fixed-shape ones of the tree harness (modelled walker; natively the real fastwalk on a scratch directory)"],
     models=["fs.DirEntry stub (regular file or directory)", "sync.Mutex no-op"],
     assumptions=["'hidden entries' read as the man page defines `hidden`: hidden directories"],
 )
@@ -17,4 +17,6 @@ def suites(tier):
     for cfg in product(file=[0, 1], dir=[0, 1], hidden=[0, 1], skip=[0, 1]):
         cfg.update(follow=0, nmax=4 if q else 6)
         jobs.append(dict(id=jid("walk", cfg), func="zzH_C19_walkfn", cfg=cfg))
+    for cfg in product(file=[0, 1], dir=[0, 1], hidden=[0, 1]):
+        jobs.append(dict(id=jid("tree", cfg), func="zzH_C19_tree", cfg=cfg))
     return [src_suite("src", jobs)]
